@@ -187,6 +187,7 @@ type c01H struct {
 	createQL   int
 	createMax  int
 	modelOK    bool
+	bad        int // violations reported by this history (the walk stops after a few)
 	state      string
 	stateTrail []string
 	dead       bool
@@ -485,9 +486,20 @@ func c01SinceClass(s SequenceID) string {
 	return "integer"
 }
 
+func c01UserClass(u string) string {
+	switch u {
+	case "admin":
+		return "admin"
+	case "uDyn", "uDynA":
+		return "user-with-access()-grants"
+	case "uAdm":
+		return "user-with-changing-admin-grants"
+	}
+	return "user-with-static-grants"
+}
+
 func c01ReqClass(q c01Req) string {
-	u := q.User
-	cl := "user=" + u + "|since=" + c01SinceClass(q.Since)
+	cl := "requester=" + c01UserClass(q.User) + "|since=" + c01SinceClass(q.Since)
 	if q.Limit > 0 {
 		cl += "|limit"
 	}
@@ -512,6 +524,7 @@ func (h *c01H) expect(kind string, q c01Req, got, want []c01Entry, ref string) b
 		what = "more-entries"
 	}
 	sig := fmt.Sprintf("C01|db|differential|%s|state=%s|%s|%s", kind, h.stateClass(), c01ReqClass(q), what)
+	h.bad++
 	h.run.Violation("differential", sig,
 		fmt.Sprintf("%s under cache state %q returned %s; the reference (%s) gives %s", q, h.state, c01List(got), ref, c01List(want)),
 		h.wit(map[string]any{"request": q.String(), "got": c01List(got), "want": c01List(want), "reference": ref}))
@@ -543,6 +556,18 @@ func (h *c01H) applyState(s c01State) {
 	}
 	h.cc.maxChannels = mc
 	h.db.Options.CacheOptions.ChannelQueryLimit = ql
+	if s.Flush || s.Clear {
+		// channelCacheImpl.Clear (a test-only entry point) must not overlap a running compaction: Clear re-initialises the
+		// collection the compaction goroutine is about to remove its eviction candidates from
+		deadline := time.Now().Add(20 * time.Second)
+		for h.cc.isCompactActive() {
+			if time.Now().After(deadline) {
+				h.run.Inconclusive("channel cache compaction still running after the watchdog; cache state not changed")
+				return
+			}
+			time.Sleep(200 * time.Microsecond)
+		}
+	}
 	if s.Flush {
 		h.db.DatabaseContext.FlushChannelCache(h.t)
 		h.waitSeq(h.maxSeq)
@@ -765,7 +790,7 @@ func (h *c01H) checkpoint(final bool) {
 		order := r.Perm(len(combos))
 		for _, ci := range order {
 			c := combos[ci]
-			if _, ok := refFull[c]; !ok {
+			if _, ok := refFull[c]; !ok || h.bad > 6 {
 				continue
 			}
 			// in the reference state everything is asked for every combination; elsewhere one family member
@@ -837,6 +862,7 @@ func (h *c01H) model(user string, filter []string, since uint64, activeOnly bool
 	h.run.Count("model_checks", 1)
 	q := c01Req{User: user, Chans: filter, Active: activeOnly, Since: SequenceID{Seq: since}}
 	fail := func(sig, msg string) {
+		h.bad++
 		h.run.Violation("model", "C01|db|model|"+sig, fmt.Sprintf("%s: %s; response %s", q, msg, c01List(es)), h.wit(map[string]any{"request": q.String(), "response": c01List(es)}))
 	}
 	byDoc := map[string][]c01Entry{}
@@ -979,6 +1005,11 @@ func c01RunHistory(t *testing.T, run *vlib.Run, idx int) {
 		}
 	}
 	h.checkpoint(true)
+	cs := db.DbStats.Cache()
+	run.Count("sg_stats.channel_cache_bypass", int(cs.ChannelCacheBypassCount.Value()))
+	run.Count("sg_stats.channel_cache_hits", int(cs.ChannelCacheHits.Value()))
+	run.Count("sg_stats.channel_cache_misses_backfill_queries", int(cs.ChannelCacheMisses.Value()))
+	run.Count("sg_stats.channel_cache_compactions", int(cs.ChannelCacheCompactCount.Value()))
 	run.Eval()
 	grants, conflicts := 0, 0
 	for _, op := range h.ops {
@@ -1000,7 +1031,7 @@ func c01RunHistory(t *testing.T, run *vlib.Run, idx int) {
 func TestVerif_C01_DB(t *testing.T) {
 	run := vlib.Start(t, "C01", "db")
 	defer run.Finish()
-	n := run.N(24, 400)
+	n := run.N(40, 400)
 	workers := 8
 	var wg sync.WaitGroup
 	next := make(chan int)
